@@ -12,7 +12,8 @@ export CARGO_TARGET_DIR=/tmp/seed/target
 : > "$LOG"
 cd "$WT" || exit 2
 echo "== git status" >> "$LOG"; git status --short >> "$LOG"
-PK=""; for c in $CRATES; do PK="$PK -p $c"; done
+PK=""; FE=""; for c in $CRATES; do PK="$PK -p $c"; case $c in celestia-types|lumina-node) FE="$FE,$c/test-utils";; esac; done
+[ -n "$FE" ] && PK="$PK --features ${FE#,}"
 echo "== tests with change: cargo nextest run $PK" >> "$LOG"
 # shellcheck disable=SC2086
 cargo nextest run $PK --no-fail-fast --tool-config-file pb:/w/lib/nextest.toml --profile pb --test-threads 8 --offline >> "$B/nextest.log" 2>&1
